@@ -286,3 +286,42 @@ SPECS["C15"] = {
     "level_note": "reference order: unsigned code-unit lexicographic with prefix first (generated units are < 0x80, so signedness of char does not matter)",
     "assumptions": ["strings compared contain only units below 0x80"],
 }
+
+
+# ---------------------------------------------------------------------------------------------- C14
+def plan_c14(tier, seed):
+    if tier == "quick":
+        return (checks("main", 6, 12000) + checks("avx2_nohook", 1, 8000) + checks("scalar", 1, 8000)
+                + shards("main", "grid-quick", 2) + shards("avx2_nohook", "grid-quick", 2) + shards("scalar", "grid-quick", 2))
+    return (checks("main", 8, 200000) + checks("avx2_nohook", 3, 150000) + checks("scalar", 3, 150000)
+            + shards("plain_sse2", "grid-full", 5, timeout=7000) + shards("plain_avx2", "grid-full", 5, timeout=7000)
+            + shards("plain_scalar", "grid-full", 5, timeout=7000) + shards("main", "grid-quick", 2) + shards("avx2_nohook", "grid-quick", 2))
+
+
+SPECS["C14"] = {
+    "builds": {
+        "main": Build("main", "harness/c14_sequences.cpp"),
+        "avx2_nohook": Build("avx2_nohook", "harness/c14_sequences.cpp", simd="avx2", hook=False),
+        "scalar": Build("scalar", "harness/c14_sequences.cpp", simd="none"),
+        "plain_sse2": Build("plain_sse2", "harness/c14_sequences.cpp", san="plain", hook=False),
+        "plain_avx2": Build("plain_avx2", "harness/c14_sequences.cpp", san="plain", simd="avx2", hook=False),
+        "plain_scalar": Build("plain_scalar", "harness/c14_sequences.cpp", san="plain", simd="none", hook=False),
+    },
+    "default_build": "main",
+    "plan": plan_c14,
+    "exhaustive_enums": ["grid-quick", "grid-full"],
+    "rule": ("(a) generated operation programs (1-50 steps, pool of two containers) on Array<int>, Array<String> (owning), String, StringStream (char/char16_t/char32_t) "
+             "and StringView covering construction forms, copy/move, append of items / ranges / other container / the container itself, Insert, InsertAt, Reverse, "
+             "StepBack/Drop, Trim, Reserve/Resize/ResizeAndInitialize/Expect/Compress, Detach/adopt, Reset/Clear, Buffer/SetLength/InsertNull/GetString/"
+             "GetStringView, Sort, comparisons against String/StringView/C-string incl. storage-less operands; model compared after every step; "
+             "(b) Memory::Copy and SetToZero on exact-end heap buffers against memcpy/memset for a grid of lengths and source/destination misalignments in "
+             "scalar, SSE2 and AVX2 builds; non-trivial = a growth happened while the container was non-empty (a), every grid point (b); distinct by entropy"),
+    "engine": "rapidcheck + complete enumeration",
+    "technique": "model-based property testing (rapidcheck, std::vector / unit-vector reference models compared after every step) plus complete enumeration of the copy/zero-fill length x misalignment grid per SIMD build",
+    "level_text": ("Sequence containers are driven by generated operation programs and compared with plain sequence models after every step (contents, length, "
+                   "First/Last/End, NUL termination, capacity >= size, the other pool member untouched, allocation ledger); exact-fit growth + ASan turn any access "
+                   "past the logical end into a failure. The byte primitives are enumerated over the stated grid in three SIMD builds (thorough: all lengths "
+                   "0..4096 x 64 x 64 misalignments). Sampling for the histories, exhaustive for the grid."),
+    "level_note": "trusts std::vector / memcpy / memset as reference; ASan for out-of-block accesses",
+    "assumptions": ["String(len) is used as a buffer the caller fills (its content is unspecified until written)"],
+}
